@@ -11,14 +11,20 @@ LEVEL_TEXT = (
     "model of Tokenizer.tokenize returns a stream whose concatenation is the text, whose special tokens index their "
     "own text, are increasing and non-overlapping, and whose index list is exact (Props/C12.v). The model is tied "
     "to the Python loop by exhaustive small-scope + sampled correspondence through the documented extract_tokens "
-    "override, and to the three shipped tokenizers on generated legal text."
+    "override, and to the three shipped tokenizers on generated legal text. Closed end to end (Props/C12.v C12_text_*): "
+    "for the default tokenizer as a function of the TEXT ALONE -- candidates computed by the model of re.finditer / "
+    "Token.from_match / the Aho-Corasick pre-filter on the verified engine over the regenerated extractor table -- the "
+    "same four statements hold with no hypothesis; that model is tied to extract_tokens and tokenize by the extract / "
+    "tokens streams."
 )
 RULE = (
     "tokenize-core: every single candidate and every ordered pair of candidates over the 7-character text 'ab cd e' "
     "(36 intervals x token kinds {nominative citation, citation, stop word[, short citation, id]}), sampled triples and "
     "sampled 4-8 candidate configurations over longer texts; tokenize-full: generated citation-dense documents through "
     "Tokenizer, AhocorasickTokenizer, HyperscanTokenizer. Non-trivial = at least two candidates overlap or merge "
-    "(core) / the text yields at least two special tokens (full); distinct by (stream, text, candidates)."
+    "(core) / the text yields at least two special tokens (full); distinct by (stream, text, candidates). extract / tokens: "
+    "short citation-dense documents, the model is given the text only and must reproduce list(extract_tokens(text)) of "
+    "Tokenizer and AhocorasickTokenizer (order included) and default_tokenizer.tokenize(text)."
 )
 ASSUMPTIONS = [
     "candidates are well-formed (cand_wf): 0<=start<=end<=len(text) and data = text[start:end] -- true of re.finditer group 1 "
